@@ -37,6 +37,7 @@ def run(ctx):
     ctx.guard(rule_d, ctx, ix)
     ctx.guard(rule_e, ctx, ix)
     ctx.guard(rule_f, ctx, ix)
+    ctx.guard(rule_g, ctx, ix)
 
 
 def family(ix):
@@ -522,3 +523,88 @@ def rule_f(ctx, ix):
                                 'linked dataset the wrong axes are collapsed and the mask of a view differs from the view of the full mask'
                                 % (norm(r), 'it only tests their type' if other else 'no test'),
                   shape=' and '.join(unparse(t) for t in tests), where=where(f, r))
+
+
+def rule_g(ctx, ix):
+    """IndexedData hands every request to its parent with a view that has one entry per dimension of the parent: it takes one
+    entry of the caller's view per kept dimension.  The caller's view may be None, Ellipsis, a single slice / integer, or a tuple
+    shorter than the number of kept dimensions (all accepted by the parent itself): each of these has to be completed to one
+    entry per kept dimension before the entries are taken."""
+    from .. import cond
+    from ..util import parent_map
+    R = 'C04.g'
+    ctx.describe(R, 'IndexedData completes the caller\'s view (None, Ellipsis, single entry, short tuple) before taking one entry per kept dimension', floor=4)
+    idx = ix.cls('glue.core.data_derived.IndexedData')
+    f = idx.resolve_func('_to_original_view')
+    if f is None:
+        raise AnalysisError('IndexedData._to_original_view vanished')
+    v = f.params[1]
+    s_ = f.self_name
+    takes = [n for n in ast.walk(f.node) if isinstance(n, ast.Subscript) and isinstance(n.ctx, ast.Load) and isinstance(n.value, ast.Name)
+             and n.value.id == v and not isinstance(n.slice, (ast.Constant, ast.Slice))]
+    if not takes:
+        raise AnalysisError('IndexedData._to_original_view: taking one entry of the view per kept dimension is no longer recognised')
+    pm = parent_map(f.node)
+    assigns = [st for st in walk_no_nested(f.node) if isinstance(st, ast.Assign) and any(isinstance(t, ast.Name) and t.id == v for t in st.targets)]
+
+    def repeat(e):
+        """(count expression) when e is `[slice(None)] * N`, `(slice(None),) * N`, `N * [...]` or `[slice(None) for _ in range(N)]`"""
+        def is_full_slice(x):
+            return isinstance(x, ast.Call) and call_name(x) == 'slice' and x.args and all(isinstance(a, ast.Constant) and a.value is None for a in x.args)
+        if isinstance(e, ast.Call) and isinstance(e.func, ast.Name) and e.func.id in ('list', 'tuple') and len(e.args) == 1:
+            e = e.args[0]
+        if isinstance(e, ast.BinOp) and isinstance(e.op, ast.Mult):
+            for seq, cnt in ((e.left, e.right), (e.right, e.left)):
+                if isinstance(seq, (ast.List, ast.Tuple)) and len(seq.elts) == 1 and is_full_slice(seq.elts[0]):
+                    return cnt
+        if isinstance(e, (ast.ListComp, ast.GeneratorExp)) and is_full_slice(e.elt) and len(e.generators) == 1 and \
+                isinstance(e.generators[0].iter, ast.Call) and call_name(e.generators[0].iter) == 'range' and len(e.generators[0].iter.args) == 1:
+            return e.generators[0].iter.args[0]
+        return None
+
+    def full(e):
+        c = repeat(e)
+        return c is not None and 'ndim' in unparse(c) and 'len(' not in unparse(c)
+
+    def padded(e):
+        # <the view> + <full slices for the missing entries>
+        for x in ast.walk(e):
+            if isinstance(x, ast.BinOp) and isinstance(x.op, ast.Add):
+                for a, b in ((x.left, x.right), (x.right, x.left)):
+                    c = repeat(b)
+                    if c is not None and ('len(%s)' % v) in unparse(c).replace(' ', '') and 'ndim' in unparse(c) and \
+                            any(isinstance(n, ast.Name) and n.id == v for n in ast.walk(a)):
+                        return True
+        return False
+
+    def wrapped(e):
+        return isinstance(e, (ast.List, ast.Tuple)) and len(e.elts) == 1 and unparse(e.elts[0]) == v
+
+    def pcs(pred):
+        return [cond.path_condition(f.node, st, expand=False) or ('const', True) for st in assigns if pred(st.value)]
+
+    def covered(case, pred):
+        try:
+            return any(cond.implies(case, pc) for pc in pcs(pred))
+        except ValueError:
+            return False
+    rows = [('None', cond.T('is|None|%s' % v), full, 'view=None'),
+            ('Ellipsis', cond.T('is|Ellipsis|%s' % v), full, 'view=Ellipsis (what Data accepts as "everything")')]
+    for nm, case, pred, txt in rows:
+        ctx.ob(R, '%s %s' % (f.construct, nm), '%s is replaced by one full slice per kept dimension' % nm, covered(case, pred) or
+               any(pc == ('const', True) for pc in pcs(padded)),
+               detail='IndexedData._to_original_view does not replace %s by a full view: the entry taken per kept dimension is then '
+                      '`%s[k]` of an object that cannot be subscripted, and get_data / get_mask / compute_statistic of the indexed dataset '
+                      'raise TypeError where the parent dataset answers' % (txt, v), where=f.where)
+    short = [pc for pc in pcs(padded)]
+    ctx.ob(R, f.construct + ' short', 'a view with fewer entries than kept dimensions is completed with full slices', bool(short),
+           detail='IndexedData._to_original_view takes `%s[k]` for every kept dimension without completing a shorter view: '
+                  'get_data(cid, view=(slice(0, 1),)) of a 2-d indexed dataset raises IndexError where the parent dataset answers' % v,
+           where=f.where)
+    single = pcs(wrapped)
+    ok = False
+    for pc in single:
+        ok = ok or any(a.startswith('isinstance(%s,' % v) and 'slice' in a for a in cond.atoms(pc))
+    ctx.ob(R, f.construct + ' single', 'a single slice / integer is treated as a one-entry view', ok,
+           detail='IndexedData._to_original_view subscripts a view that is a single slice or integer (view=slice(0, 1), view=1): '
+                  'TypeError where the parent dataset answers', where=f.where)
